@@ -15,10 +15,18 @@
 //!
 //! Contents are real records: chunks, `SignedRegister`s with BLS-signed operations (one whose base
 //! register is not signed by its owner), signed `Scratchpad`s (counters 1..3, equal counters with other
-//! payload, one signed by a foreign key), `Transaction` records, an undecodable one and junk. Every
-//! returned record is decoded back to small ids by the harness's own comparison with that universe.
+//! payload, one signed by a foreign key), `Transaction` records, an undecodable one and junk; the
+//! register R1 serialised to other bytes, a valid register with another base and a validly signed
+//! scratchpad of a foreign owner. Every returned record is decoded back to small ids by the harness's
+//! own comparison with that universe: the set of items, the items as a multiset (repeats kept), the
+//! base / owner of a register / scratchpad, and a hash of the returned bytes.
+//!
+//! Callers may give up (`Cancel`: the harness drops that caller's receiver). That scenario class is
+//! generated only with `--cancel 1` (VERIF_ENABLE_C05_CANCEL); a scenario that contains a Cancel step is
+//! always executed.
 use ant_networking::verif_hooks::NetworkSwarmCmd;
 use ant_networking::{GetRecordCfg, GetRecordError, Network, NetworkBuilder, NetworkError, SwarmDriver};
+use ant_protocol::NetworkAddress;
 use ant_protocol::storage::{
     try_deserialize_record, try_serialize_record, Chunk, RecordHeader, RecordKind, RetryStrategy, Scratchpad,
     Transaction,
@@ -38,7 +46,7 @@ use tokio::sync::oneshot;
 use vtrace::{arg, guarded, read_ndjson, Trace};
 use xor_name::XorName;
 
-const NC: usize = 18; // contents of the universe (GetRecord.tla `Content`)
+const NC: usize = 21; // contents of the universe (GetRecord.tla `Content`)
 const SELF_PEER: usize = 6; // this peer id is sent as PeerRecord.peer = None
 const NPEERS: usize = 8;
 const UNKNOWN: usize = 99;
@@ -55,6 +63,10 @@ struct Universe {
     ops: Vec<RegisterOp>,    // register operation id i+1
     pads: Vec<(usize, Scratchpad)>, // (content id, pad)
     txs: Vec<Transaction>,   // transaction id i+1
+    bases: Vec<Register>,    // base register id i+1 (1: the one the requested key addresses, 2: another one)
+    owners: Vec<bls::PublicKey>, // scratchpad owner id i+1 (1: the owner the requested key addresses, 2: a foreign one)
+    reg_key: RecordKey,      // the record key that addresses base register 1
+    pad_key: RecordKey,      // the record key that addresses owner 1's scratchpad
 }
 
 fn ser<T: serde::Serialize>(v: &T, kind: RecordKind) -> Vec<u8> {
@@ -87,13 +99,21 @@ impl Universe {
         let reg = Register::new(owner.public_key(), XorName([7u8; 32]), Permissions::new_with([owner.public_key()]));
         let good_sig = owner.sign(reg.bytes().expect("register bytes"));
         let bad_sig = other.sign(reg.bytes().expect("register bytes"));
-        let ops: Vec<RegisterOp> = (1..=4u8)
+        let mut ops: Vec<RegisterOp> = (1..=4u8)
             .map(|i| {
                 let mut c = RegisterCrdt::new(*reg.address());
                 let (_h, addr, node) = c.write(format!("entry{i}").into_bytes(), &BTreeSet::new()).expect("crdt write");
                 RegisterOp::new(addr, node, &owner)
             })
             .collect();
+        // another register: other owner, other name, writable by that owner; operation 5 belongs to it
+        let reg2 = Register::new(other.public_key(), XorName([9u8; 32]), Permissions::new_with([other.public_key()]));
+        let sig2 = other.sign(reg2.bytes().expect("register bytes"));
+        {
+            let mut c = RegisterCrdt::new(*reg2.address());
+            let (_h, addr, node) = c.write(b"entry5".to_vec(), &BTreeSet::new()).expect("crdt write");
+            ops.push(RegisterOp::new(addr, node, &other));
+        }
         let mk = |sig: &bls::Signature, ids: &[usize]| {
             let set: BTreeSet<RegisterOp> = ids.iter().map(|i| ops[i - 1].clone()).collect();
             ser(&SignedRegister::new(reg.clone(), sig.clone(), set), RecordKind::Register)
@@ -134,8 +154,54 @@ impl Universe {
         t5.extend_from_slice(b"\xc1 not a transaction list");
         val.push(t5); // 17 T5
         val.push(b"zz".to_vec()); // 18 J1
+        // 19 R1': the same SignedRegister as R1 in another (equally decodable) MessagePack form
+        {
+            let set: BTreeSet<RegisterOp> = [ops[0].clone()].into_iter().collect();
+            let r1 = SignedRegister::new(reg.clone(), good_sig.clone(), set);
+            let mut named = RecordHeader { kind: RecordKind::Register }.try_serialize().expect("header").to_vec();
+            named.extend_from_slice(&rmp_serde::to_vec_named(&r1).expect("named form"));
+            let probe = Record { key: RecordKey::new(&[0u8; 32]), value: named.clone(), publisher: None, expires: None };
+            let alt = if try_deserialize_record::<SignedRegister>(&probe).map(|r| r == r1).unwrap_or(false) {
+                named
+            } else {
+                // fall back: widen the outermost array header (fixarray(3) -> array16(3))
+                let compact = val[3].clone();
+                let hl = RecordHeader::SIZE;
+                assert_eq!(compact[hl], 0x93, "SignedRegister is a 3-element array");
+                let mut v = compact[..hl].to_vec();
+                v.extend_from_slice(&[0xdc, 0x00, 0x03]);
+                v.extend_from_slice(&compact[hl + 1..]);
+                v
+            };
+            val.push(alt);
+        }
+        // 20 R6: a valid register with another base, carrying its own operation 5
+        {
+            let set: BTreeSet<RegisterOp> = [ops[4].clone()].into_iter().collect();
+            val.push(ser(&SignedRegister::new(reg2.clone(), sig2.clone(), set), RecordKind::Register));
+        }
+        // 21 P6: a validly signed scratchpad of a foreign owner, counter 5
+        {
+            let mut p = Scratchpad::new(other.public_key(), 0);
+            for _ in 0..5 {
+                let _ = p.update_and_sign(Bytes::from(b"pad-foreign".to_vec()), &other);
+            }
+            val.push(ser(&p, RecordKind::Scratchpad));
+            pads.push((21, p));
+        }
         assert_eq!(val.len(), NC);
-        let u = Universe { val, ops, pads, txs: vec![t1, t2] };
+        let reg_key = NetworkAddress::from_register_address(*reg.address()).to_record_key();
+        let pad_key = pads[0].1.network_address().to_record_key();
+        let u = Universe {
+            val,
+            ops,
+            pads,
+            txs: vec![t1, t2],
+            bases: vec![reg, reg2],
+            owners: vec![owner.public_key(), other.public_key()],
+            reg_key,
+            pad_key,
+        };
         u.self_check();
         u
     }
@@ -143,13 +209,25 @@ impl Universe {
     /// The universe must have the validity pattern GetRecord.tla's `Content` table states.
     fn self_check(&self) {
         let rec = |c: usize| Record { key: RecordKey::new(&[0u8; 32]), value: self.val[c - 1].clone(), publisher: None, expires: None };
-        for c in 4..=7 {
+        for c in [4, 5, 6, 7, 19, 20] {
             let r: SignedRegister = try_deserialize_record(&rec(c)).expect("register decodes");
             assert_eq!(r.verify().is_ok(), c != 7, "register validity of content {c}");
+            assert_eq!(r.base_register() == &self.bases[0], c != 20, "base of register {c}");
+            assert_eq!(r.base_register() == &self.bases[1], c == 20, "base of register {c}");
         }
-        for (c, cnt, ok) in [(8, 1, true), (9, 2, true), (10, 3, true), (11, 3, true), (12, 4, false)] {
+        {
+            // R1' is R1 (same base, same operations, same signature) in other bytes
+            let a: SignedRegister = try_deserialize_record(&rec(4)).expect("R1");
+            let b: SignedRegister = try_deserialize_record(&rec(19)).expect("R1'");
+            assert!(a == b && self.val[3] != self.val[18], "R1' must decode to R1 and differ byte-wise");
+            // the requested key of the register cases really addresses base register 1
+            assert_eq!(NetworkAddress::from_register_address(*a.address()).to_record_key(), self.reg_key);
+        }
+        for (c, cnt, ok, own) in [(8, 1, true, 1), (9, 2, true, 1), (10, 3, true, 1), (11, 3, true, 1), (12, 4, false, 1), (21, 5, true, 2)] {
             let p: Scratchpad = try_deserialize_record(&rec(c)).expect("pad decodes");
             assert_eq!((p.count(), p.is_valid()), (cnt, ok), "pad {c}");
+            assert_eq!(p.owner(), &self.owners[own - 1], "owner of pad {c}");
+            assert_eq!(p.network_address().to_record_key() == self.pad_key, own == 1, "address of pad {c}");
         }
         for c in 13..=16 {
             assert!(try_deserialize_record::<Vec<Transaction>>(&rec(c)).is_ok());
@@ -165,34 +243,49 @@ impl Universe {
         self.val.iter().position(|v| v.as_slice() == value).map(|i| i + 1).unwrap_or(0)
     }
 
-    /// decode a record value to (kind name, item ids) with the harness's own comparisons
-    fn decode(&self, value: &[u8]) -> (&'static str, Vec<usize>) {
+    /// decode a record value to (kind name, items as a MULTISET = sorted ids with repeats, base / owner id)
+    /// with the harness's own comparisons
+    fn decode(&self, value: &[u8]) -> (&'static str, Vec<usize>, usize) {
         let rec = Record { key: RecordKey::new(&[0u8; 32]), value: value.to_vec(), publisher: None, expires: None };
-        let Ok(h) = RecordHeader::from_record(&rec) else { return ("junk", vec![]) };
+        let Ok(h) = RecordHeader::from_record(&rec) else { return ("junk", vec![], 0) };
         let sorted = |mut v: Vec<usize>| {
             v.sort();
-            v.dedup();
             v
         };
         match h.kind {
             RecordKind::Chunk => {
                 let c = self.cid(value);
-                ("chunk", vec![if c == 0 { UNKNOWN } else { c }])
+                ("chunk", vec![if c == 0 { UNKNOWN } else { c }], 0)
             }
             RecordKind::Register => match try_deserialize_record::<SignedRegister>(&rec) {
-                Ok(r) => ("reg", sorted(r.ops().iter().map(|o| self.ops.iter().position(|k| k == o).map(|i| i + 1).unwrap_or(UNKNOWN)).collect())),
-                Err(_) => ("reg", vec![]),
+                // (the operations of a decoded register are a set: repeats cannot be represented)
+                Ok(r) => (
+                    "reg",
+                    sorted(r.ops().iter().map(|o| self.ops.iter().position(|k| k == o).map(|i| i + 1).unwrap_or(UNKNOWN)).collect()),
+                    self.bases.iter().position(|b| b == r.base_register()).map(|i| i + 1).unwrap_or(UNKNOWN),
+                ),
+                Err(_) => ("reg", vec![], 0),
             },
             RecordKind::Scratchpad => match try_deserialize_record::<Scratchpad>(&rec) {
-                Ok(p) => ("pad", vec![self.pads.iter().find(|(_, k)| *k == p).map(|(c, _)| *c).unwrap_or(UNKNOWN)]),
-                Err(_) => ("pad", vec![]),
+                Ok(p) => (
+                    "pad",
+                    vec![self.pads.iter().find(|(_, k)| *k == p).map(|(c, _)| *c).unwrap_or(UNKNOWN)],
+                    self.owners.iter().position(|o| o == p.owner()).map(|i| i + 1).unwrap_or(UNKNOWN),
+                ),
+                Err(_) => ("pad", vec![], 0),
             },
             RecordKind::Transaction => match try_deserialize_record::<Vec<Transaction>>(&rec) {
-                Ok(ts) => ("txn", sorted(ts.iter().map(|t| self.txs.iter().position(|k| k == t).map(|i| i + 1).unwrap_or(UNKNOWN)).collect())),
-                Err(_) => ("txn", vec![]),
+                Ok(ts) => ("txn", sorted(ts.iter().map(|t| self.txs.iter().position(|k| k == t).map(|i| i + 1).unwrap_or(UNKNOWN)).collect()), 0),
+                Err(_) => ("txn", vec![], 0),
             },
-            _ => ("other", vec![]),
+            _ => ("other", vec![], 0),
         }
+    }
+
+    /// hash of returned bytes (16 hex digits of SHA-256)
+    fn hash(value: &[u8]) -> String {
+        use sha2::{Digest, Sha256};
+        hex::encode(&Sha256::digest(value)[..8])
     }
 }
 
@@ -252,18 +345,28 @@ impl<'a> World<'a> {
     fn record(&self, c: usize, k: usize) -> Record {
         Record { key: self.keys[k - 1].clone(), value: self.u.val[c - 1].clone(), publisher: None, expires: None }
     }
-    fn cfg(&self, quorum: &str, target: usize, key: usize, retry: Option<RetryStrategy>) -> GetRecordCfg {
+    /// expected holders: 0 none, 1 = peers {1,2} (the peers that usually reply first), 2 = peers {7,8}
+    fn holders(&self, eh: usize) -> HashSet<PeerId> {
+        match eh {
+            1 => [self.peers[0], self.peers[1]].into_iter().collect(),
+            2 => [self.peers[6], self.peers[7]].into_iter().collect(),
+            _ => HashSet::new(),
+        }
+    }
+    fn cfg(&self, quorum: &str, target: usize, key: usize, retry: Option<RetryStrategy>, isreg: bool, eh: usize) -> GetRecordCfg {
         GetRecordCfg {
             get_quorum: quorum_of(quorum),
             retry_strategy: retry,
             target_record: if target == 0 { None } else { Some(self.record(target, key)) },
-            expected_holders: HashSet::new(),
-            is_register: false,
+            expected_holders: self.holders(eh),
+            is_register: isreg,
         }
     }
     fn ok_outcome(&self, r: &Record) -> Value {
-        let (vk, vs) = self.u.decode(&r.value);
-        json!({"kind":"Ok","e":"","cid":self.u.cid(&r.value),"k":self.key_id(&r.key),"vk":vk,"vs":vs})
+        let (vk, vm, vb) = self.u.decode(&r.value);
+        let vs: Vec<usize> = vm.iter().cloned().collect::<BTreeSet<usize>>().into_iter().collect();
+        json!({"kind":"Ok","e":"","cid":self.u.cid(&r.value),"k":self.key_id(&r.key),"vk":vk,"vs":vs,"vb":vb,"vm":vm,
+               "h":Universe::hash(&r.value)})
     }
     fn split_outcome(&self, m: &HashMap<XorName, (Record, HashSet<PeerId>)>) -> Value {
         let mut vs = BTreeSet::new();
@@ -274,7 +377,7 @@ impl<'a> World<'a> {
             ks.insert(self.key_id(&r.key));
         }
         let k = if ks.len() == 1 { *ks.iter().next().expect("one") } else { 0 };
-        json!({"kind":"Split","e":"","cid":0,"k":k,"vk":"","vs":vs.into_iter().collect::<Vec<_>>()})
+        json!({"kind":"Split","e":"","cid":0,"k":k,"vk":"","vs":vs.into_iter().collect::<Vec<_>>(),"vb":0,"vm":[],"h":""})
     }
     fn err_outcome(&self, e: &GetRecordError) -> Value {
         let name = match e {
@@ -285,7 +388,7 @@ impl<'a> World<'a> {
             GetRecordError::RecordNotFound => "RecordNotFound",
             GetRecordError::SplitRecord { result_map } => return self.split_outcome(result_map),
         };
-        json!({"kind":"Err","e":name,"cid":0,"k":0,"vk":"","vs":[]})
+        json!({"kind":"Err","e":name,"cid":0,"k":0,"vk":"","vs":[],"vb":0,"vm":[],"h":""})
     }
     fn outcome(&self, o: &Outcome) -> Value {
         match o {
@@ -294,7 +397,7 @@ impl<'a> World<'a> {
         }
     }
     fn dropped() -> Value {
-        json!({"kind":"Dropped","e":"","cid":0,"k":0,"vk":"","vs":[]})
+        json!({"kind":"Dropped","e":"","cid":0,"k":0,"vk":"","vs":[],"vb":0,"vm":[],"h":""})
     }
 
     /// the pending reads, with queries numbered in the order they first appeared
@@ -355,13 +458,15 @@ impl<'a> World<'a> {
         let (caller, key, target, q, p, c, k) =
             (uz(&s["caller"]), uz(&s["key"]), uz(&s["target"]), uz(&s["q"]), uz(&s["p"]), uz(&s["c"]), uz(&s["k"]));
         let quorum = s["quorum"].as_str().unwrap_or("One").to_string();
+        let isreg = s["isreg"].as_bool().unwrap_or(false);
+        let eh = uz(&s["eh"]);
         let mut att = 0usize;
         // a panic of the code under test is data ("Panic"), not a tool failure
         let res: Result<Result<(), NetworkError>, String>;
         if ev == "Call" {
             let before = self.pending();
             let (tx, rx) = oneshot::channel();
-            let cfg = self.cfg(&quorum, target, key, None);
+            let cfg = self.cfg(&quorum, target, key, None, isreg, eh);
             let cmd = NetworkSwarmCmd::GetNetworkRecord { key: self.keys[key - 1].clone(), sender: tx, cfg };
             let drv = &mut self.drv;
             res = guarded(move || drv.verif_handle_network_cmd(cmd));
@@ -374,6 +479,17 @@ impl<'a> World<'a> {
                     _ => {}
                 }
             }
+        } else if ev == "Cancel" {
+            // the caller gives up: its receiving end is dropped (nothing is told to the SwarmDriver).
+            // Whatever was already in its channel is looked at first, so that nothing delivered goes unseen.
+            let early = self.poll_callers();
+            assert!(early.is_empty(), "outcomes are polled after every step");
+            if let Some(slot) = self.callers.get(&caller) {
+                if !slot.done {
+                    let _ = self.callers.remove(&caller); // drops the oneshot::Receiver
+                }
+            }
+            res = Ok(Ok(()));
         } else {
             let Some(qid) = self.qids.get(q.wrapping_sub(1)).cloned() else {
                 // the behaviour addresses a query the real driver never started: drift, nothing to execute
@@ -406,7 +522,8 @@ impl<'a> World<'a> {
         let pend = self.pending();
         let pq: Vec<usize> = pend.iter().map(|x| x.0).collect();
         t.emit(json!({
-            "ev": ev, "caller": caller, "key": key, "quorum": quorum, "target": target, "q": q, "p": p, "c": c, "k": k,
+            "ev": ev, "caller": caller, "key": key, "quorum": quorum, "target": target, "isreg": isreg, "eh": eh,
+            "q": q, "p": p, "c": c, "k": k,
             "att": att, "res": match &res { Ok(Ok(())) => "Ok", Ok(Err(_)) => "Err", Err(_) => "Panic" }, "dl": dl, "pq": pq,
             "pend": pend.iter().map(|(q, k, n, v)| json!({"q": q, "key": k, "n": n, "v": v})).collect::<Vec<_>>(),
             "src": src,
@@ -444,7 +561,7 @@ impl<'a> World<'a> {
             Ok(rec) => self.ok_outcome(rec),
             Err(NetworkError::GetRecordError(e)) => self.err_outcome(e),
             Err(NetworkError::InternalMsgChannelDropped) => Self::dropped(),
-            Err(other) => json!({"kind":"Err","e":format!("Other:{other:?}").chars().take(60).collect::<String>(),"cid":0,"k":0,"vk":"","vs":[]}),
+            Err(other) => json!({"kind":"Err","e":format!("Other:{other:?}").chars().take(60).collect::<String>(),"cid":0,"k":0,"vk":"","vs":[],"vb":0,"vm":[],"h":""}),
         }
     }
 
@@ -464,10 +581,25 @@ impl<'a> World<'a> {
 
     /// one split case: get_record_from_network (no retries) answered with SplitRecord{result_map} once per
     /// iteration order of the map
-    async fn split_case(&mut self, t: &mut Trace, case: &Value, rng: &mut StdRng, max_orders: usize) {
+    async fn split_case(&mut self, t: &mut Trace, case: &Value, rng: &mut StdRng, max_orders: usize, txnbytes: bool) {
         let vs: Vec<usize> = case["vs"].as_array().expect("vs").iter().map(uz).collect();
         let target = uz(&case["target"]);
         let key = 1usize;
+        // the requested key (key 1 of this case) is the key that really addresses base register 1 when a
+        // version of that register is among the versions, else the key of owner 1's scratchpad when one of
+        // its versions is, else an arbitrary key
+        let is = |c: &usize, lo: usize, hi: usize| (lo..=hi).contains(c);
+        let genuine = if vs.iter().any(|c| is(c, 4, 7) || *c == 19) {
+            Some(self.u.reg_key.clone())
+        } else if vs.iter().any(|c| is(c, 8, 12)) {
+            Some(self.u.pad_key.clone())
+        } else {
+            None
+        };
+        let arbitrary = self.keys[0].clone();
+        if let Some(k) = genuine {
+            self.keys[0] = k;
+        }
         let fact: usize = (1..=vs.len()).product();
         let orders = fact.min(max_orders);
         let mut seen: HashSet<Vec<usize>> = HashSet::new();
@@ -485,7 +617,7 @@ impl<'a> World<'a> {
             };
             seen.insert(it.clone());
             presented += 1;
-            let cfg = self.cfg("Maj", target, key, Some(RetryStrategy::None));
+            let cfg = self.cfg("Maj", target, key, Some(RetryStrategy::None), false, 0);
             let net = self.net.clone();
             let k = self.keys[key - 1].clone();
             let h = tokio::spawn(async move { net.get_record_from_network(k, &cfg).await });
@@ -494,12 +626,12 @@ impl<'a> World<'a> {
                     let _ = sender.send(Err(GetRecordError::SplitRecord { result_map: m }));
                     match h.await {
                         Ok(r) => self.net_outcome(&r),
-                        Err(_) => json!({"kind":"Dropped","e":"Panic","cid":0,"k":0,"vk":"","vs":[]}),
+                        Err(_) => json!({"kind":"Dropped","e":"Panic","cid":0,"k":0,"vk":"","vs":[],"vb":0,"vm":[],"h":""}),
                     }
                 }
                 None => {
                     h.abort();
-                    json!({"kind":"Err","e":"NoCommand","cid":0,"k":0,"vk":"","vs":[]})
+                    json!({"kind":"Err","e":"NoCommand","cid":0,"k":0,"vk":"","vs":[],"vb":0,"vm":[],"h":""})
                 }
             };
             runs.push(json!({"it": it, "o": o}));
@@ -507,7 +639,9 @@ impl<'a> World<'a> {
                 break;
             }
         }
-        t.emit(json!({"ev":"SplitCase","key":key,"target":target,"vs":vs,"runs":runs,"src":case["src"].as_str().unwrap_or("tlc")}));
+        t.emit(json!({"ev":"SplitCase","key":key,"target":target,"vs":vs,"runs":runs,"txnbytes":txnbytes,
+                      "src":case["src"].as_str().unwrap_or("tlc")}));
+        self.keys[0] = arbitrary;
     }
 }
 
@@ -589,7 +723,7 @@ async fn retry_cases(u: &Universe, t: &mut Trace, cases: &[Value], rng: &mut Std
             if fin {
                 j.result = Some(match j.handle.take().expect("handle").await {
                     Ok(r) => w.net_outcome(&r),
-                    Err(_) => json!({"kind":"Dropped","e":"Panic","cid":0,"k":0,"vk":"","vs":[]}),
+                    Err(_) => json!({"kind":"Dropped","e":"Panic","cid":0,"k":0,"vk":"","vs":[],"vb":0,"vm":[],"h":""}),
                 });
                 progressed = true;
             } else {
@@ -617,14 +751,27 @@ async fn retry_cases(u: &Universe, t: &mut Trace, cases: &[Value], rng: &mut Std
 }
 
 // ------------------------------------------------------------------ driver-generated behaviours
-fn random_run(w: &mut World, t: &mut Trace, rng: &mut StdRng) {
+fn random_run(w: &mut World, t: &mut Trace, rng: &mut StdRng, cancel: bool) {
     let quorums = ["One", "N2", "Maj", "All", "N4"];
-    // a few contents in play, so that agreement and splits both happen
-    let pool: Vec<usize> = {
+    // a few contents in play, so that agreement and splits both happen; one run in five is about one
+    // register in several serialisations / versions (expected values compared as registers)
+    let reg_run = rng.gen_bool(0.2);
+    let pool: Vec<usize> = if reg_run {
+        let all = [4usize, 19, 6, 5, 20, 7];
+        let n = rng.gen_range(2..=4);
+        let mut v = vec![4usize, 19];
+        v.extend(all.choose_multiple(rng, n).cloned());
+        v.sort();
+        v.dedup();
+        v
+    } else {
         let all: Vec<usize> = (1..=NC).collect();
         let n = rng.gen_range(1..=4);
         all.choose_multiple(rng, n).cloned().collect()
     };
+    let base_ir = if reg_run { rng.gen_bool(0.7) } else { rng.gen_bool(0.1) };
+    let base_eh = if rng.gen_bool(0.3) { rng.gen_range(1..=2) } else { 0 };
+    let mut waiting: Vec<usize> = vec![];
     let ncallers = rng.gen_range(1..=4);
     let nkeys = if rng.gen_bool(0.3) { 2 } else { 1 };
     let mut called = 0usize;
@@ -643,7 +790,17 @@ fn random_run(w: &mut World, t: &mut Trace, rng: &mut StdRng) {
             let quorum = if same { base_q } else { *quorums.choose(rng).expect("q") };
             let target = if same { base_t } else if rng.gen_bool(0.5) { *pool.choose(rng).expect("c") } else { 0 };
             let key = if called == 1 { 1 } else { rng.gen_range(1..=nkeys) };
-            w.step(t, &json!({"ev":"Call","caller":called,"key":key,"quorum":quorum,"target":target}), "random");
+            let isreg = if same || rng.gen_bool(0.5) { base_ir } else { !base_ir };
+            let eh = if rng.gen_bool(0.7) { base_eh } else { rng.gen_range(0..=2) };
+            w.step(t, &json!({"ev":"Call","caller":called,"key":key,"quorum":quorum,"target":target,"isreg":isreg,"eh":eh}), "random");
+            waiting.push(called);
+        } else if cancel && r < 24 && !waiting.is_empty() {
+            // a caller that is still waiting gives up
+            waiting.retain(|c| w.callers.get(c).map(|s| !s.done).unwrap_or(false));
+            if let Some(c) = waiting.choose(rng).cloned() {
+                waiting.retain(|x| *x != c);
+                w.step(t, &json!({"ev":"Cancel","caller":c}), "random");
+            }
         } else if r < 88 {
             let q = rng.gen_range(1..=queries);
             let hi = if rng.gen_bool(0.7) { 4 } else { NPEERS };
@@ -728,6 +885,131 @@ fn directed_runs(u: &Universe, t: &mut Trace, seed: u64, run_no: &mut u64) {
     }
 }
 
+/// Expected values compared as registers (GetRecordCfg.is_register) and expected holders (systematic):
+/// the first caller expects R1 / R1' / R3 / the register of another base / a chunk, compared as a register
+/// or byte-wise; a second caller asks the same except for is_register, or except for the expected holders;
+/// peers return R1, its other serialisation R1', R3 (same base, other operations), R6 (other base), or
+/// alternate between two of them; expected holders are none / contain / do not contain the replying peers.
+fn register_runs(u: &Universe, t: &mut Trace, seed: u64, run_no: &mut u64) {
+    let targets = [4usize, 19, 6, 20, 1, 0];
+    let replies: [(usize, usize); 7] = [(4, 4), (19, 19), (6, 6), (20, 20), (4, 19), (4, 6), (4, 20)];
+    let mut n = 0u64;
+    for quorum in ["One", "N2", "Maj"] {
+        for tg in targets {
+            for isreg in [true, false] {
+                for (ri, (c1, c2)) in replies.iter().enumerate() {
+                    // second caller: 0 none, 1 same cfg, 2 differs in is_register only, 3 differs in the holders only
+                    for second in 0..4usize {
+                        for ending in ["Finished", "Timeout"] {
+                            n += 1;
+                            // thin out: every combination of (target, isreg, replies) is run; quorum x second x ending rotate
+                            if (n as usize + ri) % 3 != 0 && !(quorum == "N2" && second == 2) {
+                                continue;
+                            }
+                            *run_no += 1;
+                            let mut rng = StdRng::seed_from_u64(seed.wrapping_mul(32_452_843).wrapping_add(n));
+                            let mut w = World::new(u, &mut rng);
+                            t.emit(json!({"ev":"Reset","run":*run_no,"src":"class"}));
+                            let eh1 = (n as usize) % 3;
+                            w.step(t, &json!({"ev":"Call","caller":1,"key":1,"quorum":quorum,"target":tg,"isreg":isreg,"eh":eh1}), "class");
+                            for i in 0..5usize {
+                                if i == 1 && second > 0 {
+                                    let (ir2, eh2) = match second {
+                                        1 => (isreg, eh1),
+                                        2 => (!isreg, eh1),
+                                        _ => (isreg, (eh1 + 1) % 3),
+                                    };
+                                    w.step(t, &json!({"ev":"Call","caller":2,"key":1,"quorum":quorum,"target":tg,"isreg":ir2,"eh":eh2}), "class");
+                                }
+                                let live = w.pending();
+                                if live.is_empty() {
+                                    break;
+                                }
+                                let c = if i % 2 == 0 { *c1 } else { *c2 };
+                                for (q, key, _, _) in live {
+                                    w.step(t, &json!({"ev":"Found","q":q,"p":i + 1,"c":c,"k":key}), "class");
+                                }
+                            }
+                            let live: Vec<usize> = w.pending().iter().map(|x| x.0).collect();
+                            for q in live {
+                                w.step(t, &json!({"ev":ending,"q":q}), "class");
+                            }
+                        }
+                    }
+                }
+            }
+        }
+    }
+}
+
+/// Callers that give up (systematic; scenario class VERIF_ENABLE_C05_CANCEL): 2 or 3 callers share one
+/// query (same cfg); one or two of them drop their receivers right before the step that ends the query --
+/// the quorum-reaching reply (one version / transactions accumulated / split) or a terminating event
+/// (finished with none / one short / one enough / several versions, not found, quorum failed, timeout with
+/// none / enough / mismatch / several versions) -- or before a later caller joins. Every caller that did
+/// not give up is owed its one outcome.
+fn cancel_runs(u: &Universe, t: &mut Trace, seed: u64, run_no: &mut u64) {
+    // (name, quorum, target, replies before the cancellation [(peer, content)], the ending step)
+    // ending: ("Found", p, c) the quorum-reaching reply | (terminating event, 0, 0)
+    let paths: Vec<(&str, &str, usize, Vec<(usize, usize)>, (&str, usize, usize))> = vec![
+        ("quorum-one-version", "N2", 0, vec![(1, 1)], ("Found", 2, 1)),
+        ("quorum-target-mismatch", "N2", 2, vec![(1, 1)], ("Found", 2, 1)),
+        ("quorum-split-transactions", "N2", 0, vec![(1, 13), (2, 14)], ("Found", 3, 13)),
+        ("quorum-split", "N2", 0, vec![(1, 1), (2, 2)], ("Found", 3, 1)),
+        ("finished-several-versions", "Maj", 0, vec![(1, 1), (2, 2)], ("Finished", 0, 0)),
+        ("finished-none", "Maj", 0, vec![], ("Finished", 0, 0)),
+        ("finished-not-enough", "Maj", 0, vec![(1, 1)], ("Finished", 0, 0)),
+        ("not-found", "Maj", 0, vec![(1, 1)], ("NotFound", 0, 0)),
+        ("quorum-failed", "Maj", 0, vec![], ("QuorumFailed", 0, 0)),
+        ("timeout-several-versions", "Maj", 0, vec![(1, 1), (2, 2)], ("Timeout", 0, 0)),
+        ("timeout-not-enough", "Maj", 0, vec![(1, 1)], ("Timeout", 0, 0)),
+        ("timeout-none", "All", 0, vec![], ("Timeout", 0, 0)),
+    ];
+    // who gives up (callers are numbered in the order they asked, which is the order the code keeps their senders)
+    let patterns: Vec<(usize, Vec<usize>)> =
+        vec![(2, vec![1]), (2, vec![2]), (3, vec![1]), (3, vec![2]), (3, vec![3]), (3, vec![1, 2]), (3, vec![2, 3])];
+    let mut n = 0u64;
+    for (name, quorum, target, before, ending) in &paths {
+        for (ncallers, gone) in &patterns {
+            // late = the last caller joins AFTER the cancellation (it attaches to a query whose other senders are dead)
+            for late in [false, true] {
+                if late && gone.contains(ncallers) {
+                    continue;
+                }
+                n += 1;
+                *run_no += 1;
+                let mut rng = StdRng::seed_from_u64(seed.wrapping_mul(49_979_687).wrapping_add(n));
+                let mut w = World::new(u, &mut rng);
+                t.emit(json!({"ev":"Reset","run":*run_no,"src":"class","what":format!("cancel:{name}")}));
+                let first = if late { *ncallers - 1 } else { *ncallers };
+                for c in 1..=first {
+                    w.step(t, &json!({"ev":"Call","caller":c,"key":1,"quorum":quorum,"target":target}), "class");
+                }
+                for (p, c) in before {
+                    w.step(t, &json!({"ev":"Found","q":1,"p":p,"c":c,"k":1}), "class");
+                }
+                for c in gone {
+                    w.step(t, &json!({"ev":"Cancel","caller":c}), "class");
+                }
+                if late {
+                    w.step(t, &json!({"ev":"Call","caller":*ncallers,"key":1,"quorum":quorum,"target":target}), "class");
+                }
+                let (ev, p, c) = ending;
+                if *ev == "Found" {
+                    w.step(t, &json!({"ev":"Found","q":1,"p":p,"c":c,"k":1}), "class");
+                } else {
+                    w.step(t, &json!({"ev":ev,"q":1}), "class");
+                }
+                // whatever is still pending ends too
+                let live: Vec<usize> = w.pending().iter().map(|x| x.0).collect();
+                for q in live {
+                    w.step(t, &json!({"ev":"Finished","q":q}), "class");
+                }
+            }
+        }
+    }
+}
+
 async fn run() {
     let out = arg("--out").expect("--out");
     let seed = vtrace::seed_from_env();
@@ -745,26 +1027,32 @@ async fn run() {
             }
         }
     }
+    let cancel = arg("--cancel").map(|s| s == "1").unwrap_or(false);
     let n_rand: usize = arg("--random").and_then(|s| s.parse().ok()).unwrap_or(0);
     for i in 0..n_rand {
         run_no += 1;
         let mut rng = StdRng::seed_from_u64(seed.wrapping_mul(7_919).wrapping_add(i as u64));
         let mut w = World::new(&u, &mut rng);
         t.emit(json!({"ev":"Reset","run":run_no,"src":"random"}));
-        random_run(&mut w, &mut t, &mut rng);
+        random_run(&mut w, &mut t, &mut rng, cancel);
     }
     if arg("--directed").is_some() {
         directed_runs(&u, &mut t, seed, &mut run_no);
+        register_runs(&u, &mut t, seed, &mut run_no);
+        if cancel {
+            cancel_runs(&u, &mut t, seed, &mut run_no);
+        }
     }
     if let Some(p) = arg("--cases") {
         let cases = read_ndjson(&p);
         let max_orders: usize = arg("--orders").and_then(|s| s.parse().ok()).unwrap_or(6);
+        let txnbytes = arg("--txnbytes").map(|s| s == "1").unwrap_or(false);
         let mut rng = StdRng::seed_from_u64(seed.wrapping_mul(104_729));
         run_no += 1;
         t.emit(json!({"ev":"Reset","run":run_no,"src":"tlc"}));
         let mut w = World::new(&u, &mut rng);
         for c in cases.iter().filter(|c| c["kind"] == "split") {
-            w.split_case(&mut t, c, &mut rng, max_orders).await;
+            w.split_case(&mut t, c, &mut rng, max_orders, txnbytes).await;
         }
         drop(w);
         let retry: Vec<Value> = cases.iter().filter(|c| c["kind"] == "retry").cloned().collect();
